@@ -208,9 +208,14 @@ func acOne(c acCase, tr *traceWriter) {
 			out = ctx.Cookie("k")
 		}
 	}
-	f.Get("/q", h)
-	f.Get("/p/{k}", h)
+	f.Routes("/q", "GET,POST", h)
+	f.Routes("/p/{k}", "GET,POST", h)
 	req, _ := http.NewRequest("GET", "/q", nil)
+	if (len(c.Raw)+len(c.Def)+len(c.Fn))%3 == 0 {
+		// a form post whose BODY carries the key too: the accessors read the query string, parameters and cookies only
+		req, _ = http.NewRequest("POST", "/q", strings.NewReader("k=7&k=from-body&other=1"))
+		req.Header.Set("Content-Type", "application/x-www-form-urlencoded")
+	}
 	switch {
 	case isParam && absent:
 	case isParam:
